@@ -71,7 +71,11 @@ def ga_worker(job):
     it, w = get_interp(repo)
     models = it.get_module(MODELS_MOD)
     D = 2
-    G = SUBGROUPS[gname]()
+    G = SUBGROUPS[gname.split(":")[0]]()
+    if gname.endswith(":reversed"):
+        G = list(reversed(G))  # the identity is then the last operator of the list
+    elif gname.endswith(":rotated"):
+        G = G[1:] + G[:1]
     N = (3, 3)  # square: every element maps the grid to itself
     sig = [(tuple(t), c) for t, c in sig]
     out_sig = [(tuple(t), c) for t, c in out_sig]
@@ -266,9 +270,13 @@ def run(ctx):
     sigs = [([((0, 0), 1)], [((0, 0), 1)]), ([((0, 0), 1), ((1, 0), 1)], [((1, 0), 1), ((0, 1), 1)]), ([((1, 1), 1)], [((1, 1), 1), ((0, 0), 1)])]
     if th:
         sigs.append(([((2, 0), 1), ((0, 1), 1)], [((2, 0), 1)]))
-    for gname in SUBGROUPS:
-        n = len(SUBGROUPS[gname]())
+    for gname in list(SUBGROUPS) + ["B2:reversed", "rot:rotated", "C2xC2:reversed", "flipx:reversed"]:
+        n = len(SUBGROUPS[gname.split(":")[0]]())
+        if ":" in gname and not th and gname not in ("rot:rotated", "flipx:reversed"):
+            continue
         for sig, osig in sigs:
+            if ":" in gname and sig is not sigs[1][0]:
+                continue
             for mode in ("always", "inference"):
                 hs = range(n) if th else sorted(set([0, 1 % n, (n - 1), 3 % n]))
                 if not th and mode == "inference":
